@@ -90,6 +90,11 @@ CHECKS["C10"] = dict(cat="exploration", engine="E4 xnet (two real proxy hops, Py
    text="Every UDP-capable listener reachable from a Python client (SOCKS5 UDP associate, reverse UDP, HTTP CONNECT with Proxy-Protocol: udp inline) x every connector (direct, socks5, http inline, quic inline, quic datagrams; the last four through a second real hop) x destination {IPv4, IPv6, domain} x payload sizes 0..65000 x first/later datagram of a session: exactly one datagram with identical payload at the origin, reply back at the owner labelled with the origin's address; three concurrent sessions x 4 rounds never see each other's payload; a pending receive error never becomes a datagram.",
    note="Level 'exploration': only real UDP/QUIC sockets reach this code; kernel scheduling is uncontrolled and QUIC datagrams may shed load, so a lost-datagram verdict is re-run once. TPROXY UDP and a QUIC client as first hop are out of reach. The reassembly logic under reordering is model-checked in C11.",
    ref="DESIGN.md §3 C10")
+CHECKS["C19"] = dict(cat="fault_enumeration", engine="E4 xnet (real binary, restartable Python upstreams and a second redproxy hop for QUIC)",
+   technique="exhaustive fault-schedule enumeration on real sockets: connector kind x outage phase x fault kind (thorough: all pairs of outages), recovery probes with bounded attempts, control tunnel on a healthy upstream",
+   text="For each connector kind {direct, http, socks5, quic, loadbalance[http,direct]} the upstream is stopped, killed with RST or restarted on the same port while idle, during the upstream handshake or mid-transfer; once it is reachable again a probe must succeed within 5 attempts of 4 s; tunnels and pending handshakes that were open across the outage must end; a long-lived control tunnel through a healthy upstream is checked during and after every outage; the proxy must stay alive.",
+   note="Level 'fault_enumeration': kernel scheduling uncontrolled, deadlines one-sided. Silent packet loss with later recovery on the QUIC path is out of reach. Upstream kill = SIGKILL of the second hop / closing Python listeners.",
+   ref="DESIGN.md §3 C19")
 NOT_YET = "check not built yet in this revision (see DESIGN.md §3 for the planned model-checking design)"
 def main():
     checks = []
@@ -125,7 +130,7 @@ def main():
         "engines": [
             {"name": "E1 xsched", "path": "harness/src/verif/xsched.rs", "serves_properties": ["C01", "C04", "C06", "C14", "C15", "C16"], "kind_free_text": "stateless deviation-bounded DFS over task schedules and scripted environment answers of real async code"},
             {"name": "E3 loom", "path": "harness/src/verif/c17.rs", "serves_properties": ["C17"], "kind_free_text": "loom exhaustive interleavings of the real load balancer (feature loomlb => cfg(redproxy_verif_loom))"},
-            {"name": "E4 xnet", "path": "e4/", "serves_properties": ["C04", "C06", "C10", "C13", "C15", "C18"], "kind_free_text": "real-socket script/fault enumeration against the real binary (Python drivers, kernel scheduling uncontrolled)"},
+            {"name": "E4 xnet", "path": "e4/", "serves_properties": ["C04", "C06", "C10", "C13", "C15", "C18", "C19"], "kind_free_text": "real-socket script/fault enumeration against the real binary (Python drivers, kernel scheduling uncontrolled)"},
             {"name": "E2 xseq", "path": "harness/src/verif/", "serves_properties": [p for p in CHECKS], "kind_free_text": "bounded-exhaustive operation-sequence / input-shape enumeration on the real code vs reference model"},
         ],
         "checks": checks,
